@@ -102,6 +102,10 @@ type walkObs struct {
 }
 
 func doWalk(spec *core.Spec, node string, bs M, msgs []interface{}, limit int, bp string) walkObs {
+	return doWalkCtx(context.Background(), spec, node, bs, msgs, limit, bp)
+}
+
+func doWalkCtx(ctx context.Context, spec *core.Spec, node string, bs M, msgs []interface{}, limit int, bp string) walkObs {
 	st := &core.State{NodeName: node, Bs: match.Bindings(cloneM(bs))}
 	ctl := &core.Control{Limit: limit}
 	if bp != "" {
@@ -113,7 +117,7 @@ func doWalk(spec *core.Spec, node string, bs M, msgs []interface{}, limit int, b
 	}
 	var o walkObs
 	o.Panicked, o.PMsg, o.Where = vh.Trap(func() {
-		o.W, o.Err = spec.Walk(context.Background(), st, pend, ctl, nil)
+		o.W, o.Err = spec.Walk(ctx, st, pend, ctl, nil)
 	})
 	return o
 }
